@@ -221,7 +221,13 @@ def ob_guard():
         import torchtree.evolution.tree_likelihood as tl
         src = inspect.getsource(tl.TreeLikelihoodModel.calculate_with_tip_partials)
         if "torch.isinf(log_p)" not in src:
-            raise Undecided("guard expression changed: %s" % [l.strip() for l in src.splitlines() if "if " in l])
+            # the guard text changed: the IEEE model below no longer describes it. Decide by the real code only
+            # (C03.switch.* obligations exercise the switch on real underflowing inputs).
+            ok, msg, data = _replay_guard()
+            if ok:
+                return {"backend": "concrete (guard text changed, IEEE model skipped)", "statement": msg}
+            raise Refuted("plain value returned for sub-normal site likelihoods. " + msg, witness=data,
+                          replay={"kind": "custom", "contract": "C03", "func": "replay_guard", "args": {}}, confirmed=True)
         # IEEE model of the guard: log_p site value is -inf  iff  lik == 0 (after rounding to double, i.e. true lik < 2^-1075)
         lik = z3.Real("lik")
         tiny = z3.RealVal("2.2250738585072014e-308")
@@ -236,6 +242,85 @@ def ob_guard():
         raise Refuted("the guard `isinf(log_p)` lets the plain value through for sub-normal site likelihoods (z3 witness lik=%s). %s" % (witness[:40], msg),
                       witness=data, replay={"kind": "custom", "contract": "C03", "func": "replay_guard", "args": {}}, confirmed=(not ok))
     return Ob("C03.guard.subnormal", "U", body, clause="plain value only when representable", funcs=FUNCS, timeout=1200)
+
+
+def _caterpillar_batch_model(T, bls, use_tip_states=False):
+    """one model, branch lengths batched: bls is a list of per-sample branch-length values"""
+    m = _caterpillar_model(T, False, use_tip_states)
+    t = torch.stack([torch.full((2 * T - 3,), float(b), dtype=torch.float64) for b in bls])
+    m.tree_model._branch_lengths.tensor = t
+    return m
+
+
+def tl_plain(m):
+    """plain (unrescaled) evaluation of the same model state, without touching the switch"""
+    saved = m.rescale
+    import copy
+    m2 = copy.copy(m)
+    m2.partials = list(m.partials)
+    m2.rescale = False
+    import torchtree.evolution.tree_likelihood as tl
+    bl = m.tree_model.branch_lengths()
+    # evaluate through the real plain pruning function only
+    sample_shape = m.sample_shape
+    rates = m.site_model.rates().expand(sample_shape + (1, -1)) if m.site_model.rates().dim() == 1 else m.site_model.rates()
+    bls = torch.cat((bl if bl.dim() > 1 else bl.expand(sample_shape + (-1,)), torch.zeros(sample_shape + (1,), dtype=bl.dtype)), -1)
+    mats = m.subst_model.p_t(bls.reshape(sample_shape + (-1, 1)) * rates)
+    freqs = m.subst_model.frequencies.reshape(m.subst_model.frequencies.shape[:-1] + (1, -1))
+    probs = m.site_model.probabilities().unsqueeze(-1).unsqueeze(-1)
+    f = tl.calculate_treelikelihood_tip_states_discrete if m.use_tip_states else tl.calculate_treelikelihood_discrete
+    return f(list(m2.partials), m.weights, m.tree_model.postorder, mats, freqs, probs).reshape(-1)
+
+
+def ob_switch(use_tip_states, which):
+    """the switch to rescaling on REAL underflow: single sample, and a batch in which only some samples underflow.
+    Every returned value must be finite and agree (1e-8) with the rescaled reference; later evaluations stay consistent."""
+    def body():
+        T = 400   # saturated branches (3.0): site likelihood ~0.25^400 = 1e-241 (representable); short branches on mismatching tips underflow
+
+        def _ref(bls):
+            out = []
+            for b in bls:
+                m = _caterpillar_model(T, True, use_tip_states)
+                m.tree_model._branch_lengths.tensor = torch.full((2 * T - 3,), float(b), dtype=torch.float64)
+                out.append(float(m._call().reshape(-1)[0]))
+            return out
+        # long branches (0.5): site likelihood ~4^-700 underflows; very short branches with identical... use mixed lengths
+        # sample with long branches underflows in the plain pass; the sample with tiny branch lengths on this alignment also has a
+        # tiny likelihood, so use a short tree for "does not underflow" via near-zero mismatch penalty: branch 3.0 saturates (0.25 per tip)
+        cases = {"single": [0.01], "all_underflow": [0.01, 0.02], "mixed": [3.0, 0.01], "mixed_reversed": [0.01, 3.0], "none": [3.0, 2.5]}[which]
+        # check which samples underflow in a plain pass (facts about the input, not about the switch)
+        m = _caterpillar_batch_model(T, cases, use_tip_states) if len(cases) > 1 else _caterpillar_model(T, False, use_tip_states)
+        if len(cases) == 1:
+            m.tree_model._branch_lengths.tensor = torch.full((2 * T - 3,), cases[0], dtype=torch.float64)
+        plain = tl_plain(m)
+        v1 = m._call().reshape(-1)
+        v2 = m._call().reshape(-1)
+        ref = _ref(cases)
+        expect_under = {"single": [True], "all_underflow": [True, True], "mixed": [False, True], "mixed_reversed": [True, False], "none": [False, False]}[which]
+        if [bool(torch.isinf(x)) for x in plain] != expect_under:
+            raise Undecided("scenario %s does not have the intended underflow pattern: plain values %s" % (which, plain.tolist()))
+        bad = []
+        for k in range(len(cases)):
+            for name, v in (("first", v1), ("second", v2)):
+                x = float(v[k])
+                if ref[k] == float("-inf"):
+                    continue   # true value not finite (impossible data): nothing required
+                if not (x == x and abs(x) != float("inf")) or abs(x - ref[k]) > 1e-8 * abs(ref[k]):
+                    bad.append({"sample": k, "branch_length": cases[k], "evaluation": name, "returned": x, "reference": ref[k]})
+        if bad:
+            raise Refuted("switch to rescaling (%s, tip_states=%s): %s" % (which, use_tip_states, bad[:2]), witness={"cases": cases, "bad": bad[:4]},
+                          replay={"kind": "custom", "contract": "C03", "func": "replay_switch", "args": {"tip_states": use_tip_states, "which": which}}, confirmed=True)
+        return {"backend": "concrete", "cases": 2 * len(cases), "statement": "700-taxon JC69 caterpillar, samples %s: finite and equal to the rescaled reference on the switching and on the next evaluation" % cases}
+    return Ob("C03.switch.%s[tip_states=%s]" % (which, use_tip_states), "B", body, clause="finite whenever the true value is finite (real underflow, bounded)", funcs=FUNCS, timeout=900)
+
+
+def replay_switch(args):
+    try:
+        ob_switch(args["tip_states"], args["which"]).fn()
+    except Refuted as e:
+        return False, e.detail
+    return True, "held"
 
 
 def _caterpillar_model(T, rescale, use_tip_states=False):
@@ -313,5 +398,8 @@ def obligations(tier, seed):
                 add("C03.equiv.rescaled[tree=%s,S=2,K=1,batch=(2,)]" % ts, ("partials", ts, 2, 1, (2,), 1), "rescaled ≡ plain (batched)")
     obs.append(ob_sticky(False))
     obs.append(ob_sticky(True))
+    for which in ("single", "all_underflow", "mixed", "mixed_reversed", "none"):
+        for ts in (False, True):
+            obs.append(ob_switch(ts, which))
     obs.append(ob_guard())
     return obs
